@@ -12,7 +12,8 @@ RULE = ("Moebius-image equilibrium tissues (jittered-hexagonal, uniform and Pois
         "without internal interface, cells stored counter-clockwise / clockwise / mixed, interfaces stored in either "
         "direction, arbitrary tension vectors (linearity); plus stand-alone arcs for the turning estimator (n=2..17, "
         "turning up to 1.5 rad, scales 1e-3..1e3, both directions). distinct = (family, cells, interfaces, points, "
-        "orientation pattern); non-trivial = at least one internal interface")
+        "orientation pattern); non-trivial = at least one internal interface"
+        ' Added after the seeded rounds: reference tensions set on every interface, exact zero tensions, a hub cell with 128..149 neighbours, a second pressure step on a kept object judged against the current frame.')
 MIN_DECISIVE = {"quick": 120, "thorough": 1500}
 REQUIRED_COUNTERS = ["post:total_curvature", "arc:turning", "row:checked", "row:side", "solution:checked", "physics:checked",
                      "linearity:checked"]
